@@ -164,6 +164,13 @@ fn catalogue() -> Vec<(&'static str, &'static str, u32, Oracle)> {
             }
             Ok(())
         }),
+        ("alias separator in a timer name", "Boil ~soft|hard egg{6%min} now\n", A, |r| {
+            let t = r.timers.first().ok_or("no timer")?;
+            if t.name.as_deref() != Some("soft|hard egg") {
+                return Err(format!("timer {t:?}, expected the `|` to stay in the name"));
+            }
+            Ok(())
+        }),
         ("range", "@eggs{2-4}\n", R, |r| match qty_of(r, 0) {
             Some((Value::Text(t), None)) if t == "2-4" => Ok(()),
             other => Err(format!("quantity {other:?}, expected the text value \"2-4\"")),
@@ -313,7 +320,7 @@ pub fn replay(case: &J) -> Vec<Violation> {
 
 pub fn run(tier: Tier) {
     let c = ctx();
-    c.set_rule("Part A (differential): (i) every core-only canonical model recipe (L1 x 4 contexts, L2 pairs and triples, L3 block sequences) in every spelling with <= d deviations, (ii) every token-alphabet string up to n symbols that an independent syntactic classifier accepts as free of reinterpreted constructs and that parses without error with no extensions: the complete result (recipe JSON, validity, ordered diagnostics) must be identical under all 192 extension subsets (bundled units); Part B (catalogue): 17 sources using one extension's syntax, under every subset lacking that extension, must read as the core text the documentation describes; non-trivial = recipes / strings compared under all subsets; distinct = distinct sources");
+    c.set_rule("Part A (differential): (i) every core-only canonical model recipe (L1 x 4 contexts, L2 pairs and triples, L3 block sequences) in every spelling with <= d deviations, (ii) every token-alphabet string up to n symbols that an independent syntactic classifier accepts as free of reinterpreted constructs and that parses without error with no extensions: the complete result (recipe JSON, validity, ordered diagnostics) must be identical under all 192 extension subsets (bundled units); Part B (catalogue): 18 sources using one extension's syntax, under every subset lacking that extension, must read as the core text the documentation describes; non-trivial = recipes / strings compared under all subsets; distinct = distinct sources");
     let subs = Arc::new(subsets());
     let cfg = Config { extended: false };
     // (i) model recipes
